@@ -210,8 +210,11 @@ def _job(a):
     spin = ""
     if rc == -999:
         # where does it spin?  (same reading of the pass hook as C06)
-        r2, so2, se2, evs = obs.run(unc, ["-c", cfg, "-q", "-l", lang, "-f", src], cwd=tmp, trace=os.path.join(tmp, "k%d.nd" % i), flags=["PASS"], timeout=4)
-        passes = [e["name"] for e in evs if e.get("e") == "Pass"]
+        for budget in (6, 30):          # a loaded machine may need the longer look
+            r2, so2, se2, evs = obs.run(unc, ["-c", cfg, "-q", "-l", lang, "-f", src], cwd=tmp, trace=os.path.join(tmp, "k%d.nd" % i), flags=["PASS"], timeout=budget)
+            passes = [e["name"] for e in evs if e.get("e") == "Pass"]
+            if len(passes) > 200:
+                break
         if len(passes) > 200:
             tail = set(passes[-40:])
             spin = "width-loop" if "do_code_width" in tail else ("newline-loop" if "do_blank_lines" in tail else "loop:" + passes[-1])
